@@ -376,13 +376,13 @@ func txLeaves(l []*types.Tx) [][]byte {
 }
 
 var dupMu sync.Mutex
-var dupExample = map[string]interface{}{}
+var dupExample = map[string]map[string]interface{}{}
 
-func noteDup(c *vf.Ctx, kind string, n int, root []byte) {
+func noteDup(kind string, caseIdx, n int, root []byte) {
 	dupMu.Lock()
 	defer dupMu.Unlock()
-	if _, ok := dupExample[kind]; !ok {
-		dupExample[kind] = map[string]interface{}{"list_len": n, "root_of_list_and_of_list_plus_copy_of_last": vf.Hex(root)}
+	if cur, ok := dupExample[kind]; !ok || cur["case"].(int) > caseIdx { // lowest case index: deterministic evidence
+		dupExample[kind] = map[string]interface{}{"case": caseIdx, "list_len": n, "root_of_list_and_of_list_plus_copy_of_last": vf.Hex(root)}
 	}
 }
 
@@ -473,7 +473,7 @@ func caseTxRoot(c *vf.Ctx, i, K int) {
 		l2 := append(append([]*types.Tx(nil), list...), list[n-1])
 		if bytes.Equal(types.CalculateTxsRootHash(l2), root0) {
 			a.count("txroot.duplicate_last_collides")
-			noteDup(c, "txroot", n, root0)
+			noteDup("txroot", i, n, root0)
 		} else {
 			a.count("txroot.duplicate_last_differs")
 		}
